@@ -48,8 +48,13 @@ def prefixToLuids (alnum : Nat → Bool) (known : Str → Bool) (delims : List S
       | some (k, luid) => addLuid acc k luid
       | none => acc) []
 
-/-- decimal digits of `n` as code points -/
-def natStr (n : Nat) : Str := (toString n).toList.map Char.toNat
+/-- most significant digits first, by repeated division; `fuel` bounds the number of digits -/
+def digitsAux : Nat → Nat → Str → Str
+  | 0, _, acc => acc
+  | fuel + 1, n, acc => if n < 10 then (48 + n) :: acc else digitsAux fuel (n / 10) ((48 + n % 10) :: acc)
+
+/-- `str(n)`: the decimal digits of `n` as code points -/
+def natStr (n : Nat) : Str := digitsAux (n + 1) n []
 
 /-- the records `discover` hands to `Converter(...)` -/
 def records (alnum : Nat → Bool) (known : Str → Bool) (delims : List Str) (cutoff : Option Nat)
@@ -58,12 +63,14 @@ def records (alnum : Nat → Bool) (known : Str → Bool) (delims : List Str) (c
   let kept := (groups.filter fun g => match cutoff with | none => true | some c => decide (c ≤ g.2.length)).map (·.1)
   (List.range kept.length).zipWith (fun i up => { pfx := metaprefix ++ natStr (i + 1), uri := up }) kept
 
+/-- `converter is not None and converter.is_uri(uri)` -/
+def knownOf : Option Conv → Str → Bool
+  | some c => c.isUri
+  | none => fun _ => false
+
 /-- `discover(uris, delimiters=…, cutoff=…, metaprefix=…, converter=…)` -/
 def discover (alnum : Nat → Bool) (conv : Option Conv) (delims : List Str) (cutoff : Option Nat)
     (metaprefix : Str) (uris : List Str) : Except Err Conv :=
-  let known : Str → Bool := match conv with
-    | some c => c.isUri
-    | none => fun _ => false
-  Conv.init? (records alnum known delims cutoff metaprefix uris)
+  Conv.init? (records alnum (knownOf conv) delims cutoff metaprefix uris)
 
 end Discovery
